@@ -30,6 +30,17 @@ macro_rules! cdr {
     }};
 }
 
+/// A procedure, continuation or macro object is not a datum: it cannot be
+/// stored as a constant.
+fn is_datum(cell: &Cell) -> bool {
+    match cell {
+        Cell::Procedure(_) | Cell::Macro | Cell::Continuation => false,
+        Cell::Pair(car, cdr) => is_datum(car) && is_datum(cdr),
+        Cell::Vector(vector) => vector.iter().all(is_datum),
+        _ => true,
+    }
+}
+
 impl Vm {
     /// Compile Runnable
     ///
@@ -638,6 +649,9 @@ impl Vm {
     /// `lambda` - The lambda to emit bytecode to
     /// `expr` - The expression to quote.
     pub fn compile_quote(&mut self, lambda: &mut Lambda, expr: &Cell) -> Result<(), Error> {
+        if !is_datum(expr) {
+            return Err(InvalidSyntax(expr.to_string()));
+        }
         lambda.emit(OpCode::MovImmediate);
         lambda.emit(self.heap.maybe_put_cell(expr));
         lambda.emit(VCell::Acc);
@@ -712,6 +726,9 @@ impl Vm {
             lambda.emit(OpCode::PushAcc);
             rest = rest.cdr().unwrap();
             count += 1;
+        }
+        if !is_datum(rest) {
+            return Err(InvalidSyntax(expr.to_string()));
         }
         lambda.emit(OpCode::PushImmediate);
         lambda.emit(self.heap.maybe_put_cell(rest));
